@@ -735,6 +735,20 @@ def ru_resume_stub(cx):
 ru_resume_stub.modifies = resume_stub.modifies
 
 
+def decided(c, cond):
+    """True / False when the path condition settles cond (quick solver check), else None; used only to choose which
+    lemma to state - every stated lemma is still proved"""
+    from pyvc.engine import relevant
+    for val, neg in ((True, z3.Not(cond)), (False, cond)):
+        sol = z3.Solver()
+        sol.set('timeout', 1500)
+        sol.add(*relevant(c.new_state.pc, cond))
+        sol.add(neg)
+        if sol.check() == z3.unsat:
+            return val
+    return None
+
+
 def once_per_path(c, items):
     """drop lemma items that an earlier hook call on this very path has already contributed"""
     st = c.new_state
@@ -821,6 +835,14 @@ def make_readuntil(kind):
             if newR.decl().kind() == z3.Z3_OP_SEQ_CONCAT and newR.num_args() == 2 and newR.arg(1).eq(last):
                 out.append(R.ax_append(newR.arg(0), last))
                 newR = newR.arg(0)
+            nonempty = decided(c, z3.Length(rem) > 0)
+            if nonempty is True:
+                out += [Prove(z3.Length(rem) > 0, 'remainder is not empty on this path'),
+                        Prove(newR == z3.Concat(z3.Unit(R.mk_val(rem)), rest), 'remainder re-queued at the head')]
+            elif nonempty is False:
+                out += [Prove(z3.Length(rem) == 0, 'remainder is empty on this path'),
+                        Prove(newR == rest, 'empty remainder removed'),
+                        Prove(R.units(rem) == z3.Empty(R.US), 'an empty remainder has no units')]
             out += [Prove(z3.Implies(z3.Length(rem) > 0, newR == z3.Concat(z3.Unit(R.mk_val(rem)), rest)),
                           'remainder re-queued at the head'),
                     Prove(z3.Implies(z3.Length(rem) == 0, newR == rest), 'empty remainder removed'),
